@@ -40,6 +40,51 @@ def frame_scan():
     return n, bad
 
 
+# C19 supporting fact, taken from the COMPILED objects of the current tree: writable objects with static storage duration.
+# A parser that keeps state in a file-scope or block-scope `static` shares it with every other parser of the process (and races on it):
+# no contract frame can see that, because frames only speak about the functions under contract.  The allow-list is the complete set on the
+# pinned tree (two initialised tables that no store in the library targets, checked by the regexes next to them).
+C19_STATIC_ALLOW = {
+    ('htp_config', 'bestfit_1252'): r'bestfit_1252\s*\[[^\]]*\]\s*(=\s*[^={\s]|\+\+|--|[-+|&^]=)',
+    ('htp_decompressors', 'lzma_Alloc'): r'lzma_Alloc\s*(\.\s*\w+\s*)?(=\s*[^={\s])',
+}
+
+
+def statics_scan():
+    import subprocess, tempfile, shutil
+    repo = os.environ.get('VERIF_REPO', '/repo')
+    d = tempfile.mkdtemp(prefix='vnm.', dir='/var/tmp')
+    found, errs, nfiles = [], [], 0
+    try:
+        for src in sorted(glob.glob(os.path.join(repo, 'htp', '*.c')) + glob.glob(os.path.join(repo, 'htp', 'lzma', '*.c'))):
+            nfiles += 1
+            obj = os.path.join(d, os.path.basename(src)[:-2] + '.o')
+            r = subprocess.run(['gcc', '-c', '-O0', '-fno-common', '-w', '-I' + repo, '-I' + os.path.join(repo, 'htp'), src, '-o', obj], capture_output=True, text=True)
+            if r.returncode != 0:
+                errs.append('%s: %s' % (os.path.basename(src), r.stderr.strip().splitlines()[-1] if r.stderr.strip() else 'gcc failed'))
+                continue
+            for line in subprocess.run(['nm', obj], capture_output=True, text=True).stdout.splitlines():
+                f = line.split()
+                if len(f) >= 3 and f[-2] in 'bBdDcCsSgG':
+                    found.append((os.path.basename(src)[:-2], f[-1], f[-2]))
+    finally:
+        shutil.rmtree(d, ignore_errors=True)
+    bad = []
+    for o, sym, t in found:
+        base = re.sub(r'\.\d+$', '', sym)
+        if (o, base) not in C19_STATIC_ALLOW or base != sym:
+            bad.append('%s.c: writable object with static storage duration `%s` (nm type %s): state shared by every parser in the process' % (o, sym, t))
+    for (o, sym), rx in C19_STATIC_ALLOW.items():
+        try:
+            txt = open(os.path.join(repo, 'htp', o + '.c')).read()
+        except OSError:
+            continue
+        m = re.search(rx, txt)
+        if m:
+            bad.append('%s.c: a store targets the static table `%s`: %s' % (o, sym, ' '.join(m.group(0).split())[:80]))
+    return nfiles, found, bad, errs
+
+
 def load_units():
     units = []
     for path in sorted(glob.glob(os.path.join(VERIF, 'units', '*.py'))):
@@ -254,6 +299,22 @@ def main(argv):
             print('VIOLATION property=C19 replay=%s frame-scan: %s no-failing-input-found' % (os.path.join(VERIF, 'contracts'), b))
         if bad:
             violations.append((dict(unit='frame_scan'), [dict(property='frame_scan')], '', None))
+        nfiles, found, sbad, serrs = statics_scan()
+        frame_note.update(static_storage_scan=dict(files_compiled=nfiles, writable_static_objects=['%s.c:%s' % (o, s_) for o, s_, _ in found], not_allowed=sbad, compile_errors=serrs,
+                                                   method='gcc -c -O0 -fno-common of every htp/*.c and htp/lzma/*.c of the current tree, nm: symbols in .data/.bss/common; allow-list = the two initialised tables of the pinned tree, plus a regex scan for stores into them'))
+        print('C19 static storage scan: %d files compiled, %d writable static objects, %d not allowed' % (nfiles, len(found), len(sbad)))
+        for i, b in enumerate(sbad):
+            rp = os.path.join(VERIF, 'replay', 'C19'); os.makedirs(rp, exist_ok=True)
+            rf = os.path.join(rp, 'static_storage.%d.json' % i)
+            with open(rf, 'w') as f:
+                json.dump(dict(property='C19', unit='static_storage_scan', failed_obligation='no writable static storage outside the allow-list', description=b,
+                               verifier_output=b, how_to_replay='./bin/vcheck C19  (static storage scan: gcc -c + nm on the current tree)'), f, indent=1)
+            print('VIOLATION property=C19 replay=%s static-storage: %s no-failing-input-found' % (rf, b))
+            print('VIOLATION property=C19 replay=%s no-failing-input-found' % rf)
+        if sbad:
+            violations.append((dict(unit='static_storage_scan'), [dict(property='static_storage_scan')], '', None))
+        for e in serrs:
+            undecided.append(dict(unit='static_storage_scan', reason='cannot compile ' + e))
     for r in undecided:
         print('UNDECIDED property=%s unit=%s: %s' % (prop, r['unit'], r['reason']))
     if not a.no_evidence and a.prop:
